@@ -599,3 +599,37 @@ M('c11-prefers-candidates-lowered-only', 'C11', 'R10', RQ,
 M('c11-accepts-parameter-rebound-lowered', 'C11', 'R10', RQ, _ACC, "        media_type = media_type.lower()\n" + _ACC)
 # unknown idiom (exit 2, no violation), verified by hand: both sides folded the same way (parameter values would be
 # compared case-insensitively - not decided)
+
+# ----------------------------------------------------------------------- R4 (a) effective type of BOTH lookups (seeded s7-c11-1)
+_DEF = "            if media_type == '*/*' or not media_type:\n                media_type = default\n"
+M2('c11-resolver-bestmatch-keeps-star', 'C11', 'R4', [
+    {'file': HD, 'old': _DEF, 'new': "            if media_type == '*/*' or not media_type:\n                lookup_type = default\n"
+                                     "            else:\n                lookup_type = media_type\n"
+                                     "            media_type = media_type or default\n"},
+    {'file': HD, 'old': "handler = self.data[media_type]", 'new': "handler = self.data[lookup_type]"}])
+M('c11-resolver-or-default-only', 'C11', 'R4', HD, _DEF, "            media_type = media_type or default\n")
+M2('c11-resolver-exact-keeps-raw-type', 'C11', 'R4', [
+    {'file': HD, 'old': _DEF, 'new': "            wanted = default if media_type == '*/*' or not media_type else media_type\n"},
+    {'file': HD, 'old': "_best_match(media_type, tuple(self.data.keys()))", 'new': "_best_match(wanted, tuple(self.data.keys()))"}])
+M2('c11-resolver-bestmatch-negotiates-default-always', 'C11', 'R4', [
+    {'file': HD, 'old': "_best_match(media_type, tuple(self.data.keys()))", 'new': "_best_match(default, tuple(self.data.keys()))"}])
+# negative controls verified by hand with --root (silent): `effective = default if (not media_type or media_type == '*/*') else
+# media_type; media_type = effective`; both lookups on a local `effective` with media_type left as sent for the 415 text;
+# `if media_type in (None, '', '*/*')`; `media_type = media_type or default` followed by `if media_type == '*/*': media_type =
+# default`; `handler = self.data.get(media_type)`
+
+# ----------------------------------------------------------------------- R11 the stored weight is the parsed float (seeded s7-c11-3)
+_QRET = "        return cls(main_type, subtype, q, params)\n"
+M('c11-q-rounded-at-store', 'C11', 'R11', MT, _QRET, "        return cls(main_type, subtype, round(q, 3), params)\n")
+M('c11-q-rounded-at-parse', 'C11', 'R11', MT, "q = float(params.pop('q'))", "q = round(float(params.pop('q')), 3)")
+M('c11-q-truncated-through-local', 'C11', None, MT, _QRET,
+  "        weight = int(q * 1000) / 1000\n        return cls(main_type, subtype, weight, params)\n")
+M('c11-q-rebound-scaled', 'C11', 'R11', MT, _QRET, "        q = math.floor(q * 100) / 100\n" + _QRET)
+M('c11-q-text-cut-before-float', 'C11', 'R11', MT, "q = float(params.pop('q'))", "q = float(params.pop('q')[:5])")
+M('c11-q-rounded-in-post-init', 'C11', 'R11', MT,
+  "    @classmethod\n    def parse(cls, media_range: str) -> _MediaRange:\n",
+  "    def __post_init__(self) -> None:\n        self.quality = round(self.quality, 3)\n\n"
+  "    @classmethod\n    def parse(cls, media_range: str) -> _MediaRange:\n", also=('C19',))
+# negative controls verified by hand with --root (silent): `weight = q; return cls(main_type, subtype, quality=weight,
+# params=params)`; `q = float(params.pop('q').strip())`; `q_text = params.pop('q'); q = float(q_text)`; the range test
+# rewritten as `q < 0.0 or q > 1.0 or math.isnan(q)`
